@@ -326,6 +326,9 @@ def _leaf_from_array(g, ins):
     elif p["seed"] % 8 == 3:
         # the user hands over a read-only view of a buffer they can still write to
         p["ro_view"] = True
+    elif p["seed"] % 8 == 5:
+        # chunks="auto": resolved against array.chunk-size when the array is built (the recorded chunks are ignored)
+        p["auto"] = True
     return p
 
 
@@ -370,7 +373,7 @@ def _leaf_da(p):
         from dask.utils import SerializableLock
 
         kw["lock"] = SerializableLock(p["lock"]) if p["lock"] else False
-    return da().from_array(a, chunks=tuple(tuple(c) for c in p["chunks"]), **kw)
+    return da().from_array(a, chunks="auto" if p.get("auto") else tuple(tuple(c) for c in p["chunks"]), **kw)
 
 
 defop("from_array", 0, _leaf_from_array, _leaf_np, _leaf_da, "leaf", w=0)
